@@ -136,6 +136,16 @@ func lockstepEnv(a *app.App, o lsOpts, inputs []string, pick func(label string, 
 			}
 			continue
 		}
+		if o.DbRes {
+			// static symbols are served by the DbResource itself and are not recorded as calls
+			var kept []string
+			for _, cl := range want.Calls {
+				if _, st := a.Static[cl]; !st {
+					kept = append(kept, cl)
+				}
+			}
+			want.Calls = kept
+		}
 		if !sameStrings(funcCalls(got.Calls), want.Calls) {
 			return "call-log-differs", fmt.Sprintf("%s: external calls %v, documented semantics give %v", where, funcCalls(got.Calls), want.Calls), reqs
 		}
@@ -194,7 +204,9 @@ func lockstepEnv(a *app.App, o lsOpts, inputs []string, pick func(label string, 
 			return "language-differs", fmt.Sprintf("%s: language %q, reference %q", where, lg, rv.Lang), reqs
 		}
 		if want.OutKnown && want.Ends != "abnormal" {
-			if want.FlushErr != (got.FlushErr != "") {
+			if want.FlushErr && got.FlushErr == "" && want.HaveAlt && got.Out == want.OutAlt {
+				// accepted alternative for a final page that cannot be rendered (see ref.VM)
+			} else if want.FlushErr != (got.FlushErr != "") {
 				return "render-error-differs", fmt.Sprintf("%s: flush error %q, reference expects error=%v", where, got.FlushErr, want.FlushErr), reqs
 			}
 			if !want.FlushErr && got.Out != want.Out && !(want.HaveAlt && got.Out == want.OutAlt) {
